@@ -893,3 +893,45 @@ Lemma predecode_ignores_what_follows_the_root :
   token_view "<a x='1'/><<<" = Ok (Elem "" "a" [ {| at_space := ""; at_key := "x"; at_val := "1" |} ] []) /\
   (exists e, read_tree "<a x='1'/><<<" = Err e).
 Proof. split; [vm_compute; reflexivity|]. eexists. vm_compute. reflexivity. Qed.
+
+Lemma ex_doc_views :
+  read_tree ex_doc = Ok (dedupe (Elem "p" "r" [ {| at_space := "xmlns"; at_key := "p"; at_val := "urn:x" |};
+                       {| at_space := ""; at_key := "a"; at_val := "1<2" |};
+                       {| at_space := ""; at_key := "b"; at_val := "AB" |};
+                       {| at_space := ""; at_key := "a"; at_val := "again" |} ]
+        [Text ("t&u" ++ lf1); Text "<raw>&"; Comment " note "; ProcInst "pi" "d"; Elem "" "e" [] []])) /\
+  token_view ex_doc = Ok (Elem "p" "r" [ {| at_space := "xmlns"; at_key := "p"; at_val := "urn:x" |};
+                       {| at_space := ""; at_key := "a"; at_val := "1<2" |};
+                       {| at_space := ""; at_key := "b"; at_val := "AB" |};
+                       {| at_space := ""; at_key := "a"; at_val := "again" |} ]
+        [Text ("t&u" ++ lf1); Text "<raw>&"; Comment " note "; ProcInst "pi" "d"; Elem "" "e" [] []]) /\
+  dedupe (Elem "p" "r" [ {| at_space := "xmlns"; at_key := "p"; at_val := "urn:x" |};
+                       {| at_space := ""; at_key := "a"; at_val := "1<2" |};
+                       {| at_space := ""; at_key := "b"; at_val := "AB" |};
+                       {| at_space := ""; at_key := "a"; at_val := "again" |} ]
+        [Text ("t&u" ++ lf1); Text "<raw>&"; Comment " note "; ProcInst "pi" "d"; Elem "" "e" [] []]) =
+  dedupe (Elem "p" "r" [ {| at_space := "xmlns"; at_key := "p"; at_val := "urn:x" |};
+                       {| at_space := ""; at_key := "a"; at_val := "1<2" |};
+                       {| at_space := ""; at_key := "b"; at_val := "AB" |};
+                       {| at_space := ""; at_key := "a"; at_val := "again" |} ]
+        [Text ("t&u" ++ lf1); Text "<raw>&"; Comment " note "; ProcInst "pi" "d"; Elem "" "e" [] []]) /\
+  Elem "p" "r" [ {| at_space := "xmlns"; at_key := "p"; at_val := "urn:x" |};
+                       {| at_space := ""; at_key := "a"; at_val := "1<2" |};
+                       {| at_space := ""; at_key := "b"; at_val := "AB" |};
+                       {| at_space := ""; at_key := "a"; at_val := "again" |} ]
+        [Text ("t&u" ++ lf1); Text "<raw>&"; Comment " note "; ProcInst "pi" "d"; Elem "" "e" [] []] <>
+  dedupe (Elem "p" "r" [ {| at_space := "xmlns"; at_key := "p"; at_val := "urn:x" |};
+                       {| at_space := ""; at_key := "a"; at_val := "1<2" |};
+                       {| at_space := ""; at_key := "b"; at_val := "AB" |};
+                       {| at_space := ""; at_key := "a"; at_val := "again" |} ]
+        [Text ("t&u" ++ lf1); Text "<raw>&"; Comment " note "; ProcInst "pi" "d"; Elem "" "e" [] []]).
+Proof.
+  split; [vm_compute; reflexivity|]. split; [vm_compute; reflexivity|]. split; [reflexivity|]. vm_compute. discriminate.
+Qed.
+
+Lemma ex_doc_views_exist : exists r r0, read_tree ex_doc = Ok r /\ token_view ex_doc = Ok r0 /\ dedupe r0 = r /\ r0 <> r.
+Proof. exact (ex_intro _ _ (ex_intro _ _ ex_doc_views)). Qed.
+
+Lemma ex_tree_round_trip_short :
+  xml_wf ex_tree = true /\ read_tree (etree_write ex_tree) = Ok (normalise ex_tree) /\ normalise ex_tree <> ex_tree.
+Proof. exact (conj (proj1 ex_tree_round_trip) (conj (proj1 (proj2 ex_tree_round_trip)) (proj1 (proj2 (proj2 ex_tree_round_trip))))). Qed.
